@@ -20,7 +20,7 @@ def run(ctx):
     thorough = ctx.tier == "thorough"
     ctx.level = "inductive_invariant"
     ctx.exhaustive = True
-    res = inductive.run_inductive(ctx, CORES, budget_s=2400 if thorough else 580, bugs=True, equiv=True)
+    res = inductive.run_inductive(ctx, CORES, budget_s=3000 if thorough else 900, bugs=True, equiv=True)
     ctx.extra["inductive"] = res
     ctx.extra["trusted_base"] = ["Apalache 0.58.0 / Z3", "TLC 1.8.0 (equivalence runs)", "specs/Inductive/*.tla",
                                  "the observed-element projection argued in specs/Inductive/README.md and checked by the equivalence runs"]
